@@ -11,7 +11,7 @@ mods = sys.argv[1:]
 cmd = ['verus', 'ais_v.rs', '--crate-type=lib', '--cfg', 'feature="std"', '--extern', 'nom=libnom.rlib', '--import', 'nom=nom.vir', '-L', '.',
        '--triggers-mode', 'silent', '--multiple-errors', '5', '--time']
 for m in mods:
-    if m.startswith('-'):
+    if m.startswith('-') or m[0].isdigit():
         cmd.append(m)
     else:
         cmd += ['--verify-module', m]
